@@ -392,8 +392,11 @@ type memStream struct {
 	eofAfter bool // EOF once the chunks are exhausted
 	rdErr    error
 	wrErr    error
-	out      []byte
-	closed   bool
+	// wrErrOnce: the next write fails with this error, once; the transport stays usable (ENOBUFS, a registration
+	// refused by the poller, a cancelled write)
+	wrErrOnce error
+	out       []byte
+	closed    bool
 
 	pr *memOp
 	pw *memOp
@@ -488,6 +491,11 @@ func (m *memStream) Write(b []byte) (int, error) {
 	if m.wrErr != nil {
 		return 0, m.wrErr
 	}
+	if m.wrErrOnce != nil {
+		e := m.wrErrOnce
+		m.wrErrOnce = nil
+		return 0, e
+	}
 	if m.WouldBlk && m.w.Chance(1, 4) {
 		return 0, sonicerrors.ErrWouldBlock
 	}
@@ -548,6 +556,12 @@ func (m *memStream) asyncWrite(b []byte, all bool, cb sonic.AsyncCallback) {
 	op := &memOp{b: b, cb: cb, all: all}
 	if m.closed {
 		cb(io.EOF, 0)
+		return
+	}
+	if m.wrErrOnce != nil {
+		e := m.wrErrOnce
+		m.wrErrOnce = nil
+		cb(e, 0)
 		return
 	}
 	if !m.Defer && m.w.Chance(1, 2) {
